@@ -6,7 +6,7 @@
    Definitions only. *)
 From SV Require Import Lib.Base Fam.Schema Gen.C02Tables C02.Model.
 (* the XSD lexical spaces and value maps of C06 (read-only), for comparing leaves by value *)
-From SV Require C06.Decimal C06.Floats.
+From SV Require C06.Decimal C06.Floats C06.DateTime.
 
 (* ------------------------------------------------------------------ *)
 (* the namespace infoset                                               *)
@@ -132,7 +132,9 @@ Fixpoint has_empty_xmlns (it : ritem) : bool :=
    lexical text of the document (reference, model) or the canonical rendering
    of the returned Python value (implementation); booleans, integers and
    decimals are compared through the XSD value maps of C06 ("1" = "true",
-   "+5" = "05" = "5", "01.50" = "1.5"), everything else as text. *)
+   "+5" = "05" = "5", "01.50" = "1.5"), times and dateTimes through the C06 model
+   of the XSD time lexical space (same local fields, same zone offset),
+   everything else as text. *)
 Definition dec_same (a b : str) : bool :=
   C06.Decimal.lex_decimal a && C06.Decimal.lex_decimal b &&
   let '(m, k) := C06.Decimal.dec_value a in
@@ -149,6 +151,19 @@ Definition leaf_same (tag : N) (a b : str) : bool :=
   else if N.eqb tag tag_int then
     C06.Floats.lex_integer a && C06.Floats.lex_integer b && dec_same a b
   else if N.eqb tag tag_decimal then dec_same a b
+  else if N.eqb tag tag_time then
+    (* the same local time AND the same offset from UTC ("Z" = "+00:00"), fractions to the microsecond *)
+    match C06.DateTime.parse_time a, C06.DateTime.parse_time b with
+    | C06.DateTime.Ok (t, z), C06.DateTime.Ok (t', z') =>
+        C06.DateTime.tod_eqb t t' && C06.DateTime.tzr_eqb z z'
+    | _, _ => false
+    end
+  else if N.eqb tag tag_datetime then
+    match C06.DateTime.parse_datetime a, C06.DateTime.parse_datetime b with
+    | C06.DateTime.Ok (c, t, z), C06.DateTime.Ok (c', t', z') =>
+        C06.DateTime.civil_eqb c c' && C06.DateTime.tod_eqb t t' && C06.DateTime.tzr_eqb z z'
+    | _, _ => false
+    end
   else false.
 
 Fixpoint pyval_eqb (a b : pyval) {struct a} : bool :=
@@ -256,6 +271,18 @@ Definition simple_kind (ct : ctype) : option N :=
 (* a is b or derives from it by extension *)
 Definition derives (a b : ctype) : bool := existsb (ctype_eqb b) (chain_of S a).
 
+(* built-in k may stand where built-in k0 is declared: the same type, anything
+   under xsd:anyType / xsd:anySimpleType, an integer type under xsd:decimal,
+   xsd:int under xsd:long *)
+Definition builtin_sub (k : N) (dt : rtype) : bool :=
+  match dt with
+  | RB k0 =>
+      N.eqb k k0 || N.eqb k0 b_anyType || N.eqb k0 b_anySimpleType ||
+      (N.eqb k0 b_decimal && (b_integer <=? k)%N && (k <=? b_positiveInteger)%N) ||
+      (N.eqb k0 b_long && N.eqb k b_int)
+  | RC _ => false
+  end.
+
 (* the type an element actually has: its declared type, or the one xsi:type
    names, which must be (derived from) the declared one.  None = not valid *)
 Definition actual_type (dt : rtype) (ats : list iattr) : option rtype :=
@@ -264,14 +291,16 @@ Definition actual_type (dt : rtype) (ats : list iattr) : option rtype :=
   | Some (IText _) => None
   | Some (IQName tu tl) =>
       if uri_is tu uri_xsd then
-        match sfind tl builtin_names, dt with
-        | Some k, RB k0 => if N.eqb k k0 then Some (RB k) else None
-        | _, _ => None
+        match sfind tl builtin_names with
+        | Some k => if builtin_sub k dt then Some (RB k) else None
+        | None => None
         end
       else
-        match find_type S (uid uris tu, nid names tl), dt with
-        | Some ct, RC dct => if derives ct dct then Some (RC ct) else None
-        | _, _ => None
+        match find_type S (uid uris tu, nid names tl) with
+        | Some ct =>
+            if match dt with RC dct => derives ct dct | RB k0 => N.eqb k0 b_anyType end
+            then Some (RC ct) else None
+        | None => None
         end
   end.
 
